@@ -34,7 +34,7 @@ RULE = (
     "returned disposable (also across threads), dispose(), sleep(ms) on the fake clock, await(n) = wait until n actions have "
     "started. Engine DET (vlib/det.py) serialises all "
     "threads with yield points at every source line of reactivex and every primitive operation; time only moves when every "
-    "thread is blocked. enum: 23 hand-picked programs + all shape-(1,1)/(2,1)/(2,)/(3,) programs over the alphabet {schedule, "
+    "thread is blocked. enum: 26 hand-picked programs + all shape-(1,1)/(2,1)/(2,)/(3,) programs over the alphabet {schedule, "
     "schedule_relative(2ms), cancel(0), dispose}, each with exit_if_empty off and on, under EVERY schedule with <=1 preemption "
     "(quick); thorough adds EVERY schedule with <=2 preemptions for the hand-picked and the shape-(1,)/(1,1)/(2,) programs; gen: drawn programs (<=2 threads x <=4 commands) with <=3 "
     "drawn preemption points. Oracle over the sequentially consistent event log (call/return of every command, start/end of "
@@ -43,10 +43,11 @@ RULE = (
     "more than one loop thread is created; (immediate order) two immediately-due actions (schedule(), delay <= 0, absolute "
     "time <= now) where A's schedule call returned before B's began start in that order; (timed) an action never starts "
     "before its due time and two timed actions with due(A) < due(B) start in that order; (cancel) an action whose disposable's "
-    "dispose() returned (with no other dispose() of it still in flight) before the loop examined the item for the last time "
-    "(its is_cancelled() look right before invoking, observed through a logging ScheduledItem subclass; the start itself if "
-    "there was no look) never starts - a cancellation completing inside the loop's check->invoke window is counted (class) but "
-    "tolerated; (dispose) a schedule* call begun after a dispose() returned raises "
+    "dispose() returned (with no other dispose() of it still in flight) before the action started never starts; the only "
+    "excusal is the item's OWN narrow window: if the loop's final is_cancelled() look at this item (observed through a logging "
+    "ScheduledItem subclass) is directly followed by its start, with no other item examined, started or finished in between, "
+    "the reference point is that look instead of the start - a cancellation completing inside that window is counted (class) "
+    "but tolerated; a cancellation that returned while a different action was executing or before the look must prevent the run; (dispose) a schedule* call begun after a dispose() returned raises "
     "DisposedException and its action never runs, and DisposedException is never raised before any dispose() began; "
     "(liveness) if no dispose() was issued, every action whose schedule call returned and that nobody tried to cancel has run "
     "to its end by quiescence - in particular after an exit_if_empty thread exited a later schedule starts a new thread and "
@@ -62,7 +63,7 @@ ASSUMPTIONS = [
     "the fake clock only advances when every controlled thread is blocked, so a schedule call sees one instant from entry to return",
     "bounds: <=2 scheduling threads, <=4 commands each, one level of nested commands, <=1/<=2 preemptions exhaustive, <=3 drawn",
     "actions do not raise (an escaping action exception kills the loop thread; that is outside this property)",
-    "'cancelled before it starts' is judged at the loop's last look at the item's cancellation flag, not at the first instruction of the action (unlocked check-then-invoke, documented as best effort)",
+    "'cancelled before it starts': a cancel landing between the item's own final is_cancelled() look and its invoke (nothing else examined/run in between) is excused (unlocked check-then-invoke, documented as best effort); every other cancel that returned before the start must prevent it",
     "ties (equal due times of timed actions, immediate vs timed at one instant, calls that overlap each other or a dispose) are not ordered by the oracle",
 ]
 
@@ -72,7 +73,8 @@ _SCHED_OPS = ("now", "rel", "abs")
 class _ExaminedItem(ScheduledItem):
     """ScheduledItem that logs when the loop examines its cancellation flag (observation only).  The loop checks
     `is_cancelled()` and then invokes without holding a lock, so "cancelled before it starts" is judged against the
-    moment of that examination: a cancellation completing inside the check->invoke window (4 source lines, inherent in
+    moment of that examination WHEN it is directly followed by the item's start (nothing else examined / run in between):
+    a cancellation completing inside that check->invoke window (4 source lines, inherent in
     the check-then-act design and documented as best effort) is not counted as a violation."""
 
     def is_cancelled(self):
@@ -184,6 +186,7 @@ def _judge(case, ctx, res):
     cret, ccalled, exam, commit, inflight = {}, set(), {}, {}, {}
     dcalls, drets = [], []
     running = None
+    marker = (None, None, None)
     for k, (step, tid, pl) in enumerate(res.events):
         kind = pl[0]
         if kind == "call":
@@ -200,12 +203,17 @@ def _judge(case, ctx, res):
                 return ("ran-on-caller", f"action {cid} ran on scheduling thread {tid}"), True, cl
             running = cid
             start[cid] = (k, tid, pl[2])
-            commit[cid] = exam.get(cid, k)  # the loop's last look at the cancellation flag before invoking (else the start)
+            # the narrow window of THIS item: its own final is_cancelled() look directly followed by its invoke, with no other
+            # item examined / started / finished in between; otherwise the start itself is the reference point
+            commit[cid] = marker[0] if marker[1:] == ("exam", cid) else k
+            marker = (k, "start", cid)
         elif kind == "end":
             running = None
             end[pl[1]] = (k, tid, pl[2])
+            marker = (k, "end", pl[1])
         elif kind == "exam":
             exam[pl[1]] = k
+            marker = (k, "exam", pl[1])
         elif kind == "ccall":
             ccalled.add(pl[1])
             inflight[pl[1]] = inflight.get(pl[1], 0) + 1
@@ -269,7 +277,7 @@ def _judge(case, ctx, res):
     for cid, k in cret.items():
         if cid in start:
             if commit[cid] > k:
-                return ("cancelled-ran", f"action {cid} started although the dispose() of its disposable had returned before the loop looked at it"), True, cl
+                return ("cancelled-ran", f"action {cid} started although the dispose() of its disposable had returned before " + ("the loop's final look at it" if commit[cid] != start[cid][0] else "it started (outside the item's own check->invoke window)")), True, cl
             cl.add("cancel-in-check-invoke-window" if start[cid][0] > k else "cancel-late")
         else:
             cl.add("cancel-hit")
@@ -359,6 +367,9 @@ _HAND = [
     [[_now(1, [["dispose"]]), _now()], [_rel(1)]],
     [[_rel(2, 3), _abs(3), _abs(1)], [["sleep", 4], _now()]],
     [[_abs(2), _abs(2), ["cancel", 1]], [["sleep", 2], ["cancel", 0]]],
+    [[_now(2, [["cancel", 2]]), _now(), _now()]],  # one batch a,b,c: a's action cancels sibling c
+    [[_now(3), _now(), _now()], [["await", 1], ["cancel", 1]]],  # T1 cancels b while a is running
+    [[_rel(1, 2), _rel(1), _rel(1, 0, "f", [["cancel", 0]])], [["await", 1], ["cancel", 2]]],
     [[_now()], [["await", 1], _now()]],
     [[_now(), ["await", 1], _now(), ["await", 2], _rel(1)]],
     [[_now(), _now()], [["await", 2], _now(), ["cancel", 2]]],
